@@ -1,5 +1,6 @@
 """C15 — strings: exact escapes, interpolation equals concatenation, Unicode-safe."""
 import itertools
+import streams
 import re
 
 import core
@@ -118,6 +119,11 @@ SLOTS = [
     ("strlit-braces", '"{}"', "{}"), ("strlit", '"é😀"', "é😀"), ("nested-interp", '$"<${x}>"', "<v>"),
     ("nested-interp", 'f($"${y}${f("q")}")', "é€q!!"), ("brackets", "[x, y][1]", "é€"), ("call", "x->type()", "string"),
     ("strlit-escape", '"a\\"b\\x41"', 'a"bA'), ("spaces", " x ", "v"), ("braces", '{"k": {"k": "kk"}}.k.k', "kk"), ("range", '"hello"[1:3]', "el"), ("concat", 'x + "-" + y', "v-é€"),
+    # a slot is an expression of the whole language: function literals with bodies of several statements, called on the spot
+    ("fn-body", '(fn(n) { r := x + n; return r; })("q")', "vq"), ("fn-body", 'fn() { a := "1"; b := "2"; return a + b; }()', "12"),
+    ("fn-body-lines", '(fn(n) {\n    r := y + n\n    return r\n})("z")', "é€z"),
+    ("fn-body-if", '(fn(n) { if n == "q" { return "yes"; }; return "no"; })("q")', "yes"),
+    ("fn-body-loop", '(fn() { s := ""; for [i, c] in "ab" { s += c; }; return s; })()', "ab"),
 ]
 NONSTR = [("int", "1"), ("list", "xs"), ("null", "null"), ("object", "o"), ("bool", "x == x"), ("func", "f")]
 
@@ -260,6 +266,9 @@ def run(ctx, model_ok):
             val = "".join(famdec[q] for q in ps)
             src = ('x := "1"\ny := "\\${x}"\n' + f'print($"{lit}")\nprint($"{lit}"->len())\nz := $"{lit}"\nprint(z + "|" + z)\n')
             checks.append(("interp-lookalike", ("lookalike", k, ps[:2]), src, f"{val}\n{len(val)}\n{val}|{val}\n", "0"))
+    # … and two such literals in one run, in both orders, in a loop, through functions: equal decoded text, different slots
+    for src, want in streams.lookalike_pair_scripts(rng, 3000 if thorough else 500):
+        checks.append(("interp-lookalike-pairs", ("lookalike-pairs", src.count("${"), src.count("\\${")), src, want, "0"))
     # every slot expression alone and between multi-byte text
     for sl in SLOTS:
         for ps in [("", ""), ("é", "😀"), ("\\$", "\\\\"), ("{", "}")]:
